@@ -116,6 +116,16 @@ def simplifyCopies : Bool := true
 /-- fix C01-04 is in the source: an integer `out=` is re-typed only after the unit checks -/
 def promoteAfterChecks : Bool := true
 
+/-- the CONDITION under which each `raise` of the in-place routines fires (hand-written from the
+    contract: 1-byte integers cannot be made float in place; a read-only integer buffer is refused
+    before it is re-typed; an equivalence the unit does not have).  The translator regenerates the text
+    of the enclosing `if` tests; an inverted or additionally guarded refusal changes it. -/
+def raiseGuards : List (String × String × String) := [
+  ("convertToUnits", "ValueError", "equivalence is None && self.dtype.kind in ('u', 'i') && dsize == 1"),
+  ("convertToUnits", "ValueError", "equivalence is None && self.dtype.kind in ('u', 'i') && not values.flags.writeable"),
+  ("convertToEquivalent", "InvalidUnitEquivalence", "not (self.has_equivalent(equivalence))"),
+  ("floatOutView", "ValueError", "out.dtype.kind in ('u', 'i') && not out.flags.writeable")]
+
 /-- every `out=` of an equivalence's `_convert` goes through `_get_out`, … -/
 def equivalenceOutExpr : String := "self._get_out(x)"
 /-- … whose body hands the input back only for `in_place=True` -/
